@@ -3,6 +3,7 @@ package main
 // Store events (C16): a subscriber on the instance bus that queries the store from inside its handler.
 
 import (
+	"sync/atomic"
 	"context"
 	"strings"
 	"sync"
@@ -97,6 +98,10 @@ func (w *World) execEventOp(ctx context.Context, toks []string) (bool, error) {
 						return
 					default:
 					}
+					if atomic.LoadInt32(&w.spinPause) != 0 {
+						time.Sleep(200 * time.Microsecond) // the recorder is being read out
+						continue
+					}
 					_ = w.idxString(s)
 				}
 			}()
@@ -107,7 +112,22 @@ func (w *World) execEventOp(ctx context.Context, toks []string) (bool, error) {
 		if ew == nil {
 			return true, nil
 		}
-		time.Sleep(2 * time.Millisecond) // let the handler goroutine catch up with the bus
+		// let the handler goroutine catch up with the bus: until nothing new has been recorded for a few
+		// milliseconds (the handler queries the store, which busy readers can slow down)
+		atomic.StoreInt32(&w.spinPause, 1)
+		defer atomic.StoreInt32(&w.spinPause, 0)
+		last, stable := -1, 0
+		for deadline := time.Now().Add(500 * time.Millisecond); time.Now().Before(deadline) && stable < 5; {
+			time.Sleep(2 * time.Millisecond)
+			ew.mu.Lock()
+			n := len(ew.recs)
+			ew.mu.Unlock()
+			if n == last {
+				stable++
+			} else {
+				last, stable = n, 0
+			}
+		}
 		ew.mu.Lock()
 		recs := ew.recs
 		ew.recs = nil
